@@ -309,9 +309,9 @@ def count_minmax(cfg: CFG, start, weight, *, stop=None, edge_ok=None, count_on_e
             add = w if (e.kind != 'exc' or (count_on_exc and count_on_exc(node))) else 0
             if (e.src, e.dst) in cfg.back_edges:
                 if back == 'skip':
-                    # whole-function reading: a loop that performs no counted event is collapsed;
-                    # one that does makes the count unbounded
-                    if any(weight(k) for k in cfg.nodes if e.dst in k.loops or k.id == e.dst):
+                    # whole-function reading: a loop is collapsed unless a counted event can be
+                    # followed by this back edge (then the event can repeat: count unbounded)
+                    if _event_reaches_back_edge(cfg, e, weight, count_on_exc):
                         merge(out, ('loop', e.dst), add, INF)
                     continue
                 merge(out, ('back', e.src, e.dst), add, add)
@@ -328,6 +328,26 @@ def count_minmax(cfg: CFG, start, weight, *, stop=None, edge_ok=None, count_on_e
         return out
 
     return go(start, is_start=True)
+
+
+def _event_reaches_back_edge(cfg, be, weight, count_on_exc):
+    hdr = be.dst
+    body = {k.id for k in cfg.nodes if hdr in k.loops} | {hdr}
+    for k in body:
+        node = cfg.nodes[k]
+        if not weight(node):
+            continue
+        for e in cfg.succ[k]:
+            if e.kind == 'exc' and not (count_on_exc and count_on_exc(node)):
+                continue  # the event did not happen on this edge
+            if e is be or (e.src == be.src and e.dst == be.dst):
+                return True
+            if e.dst not in body or e.dst == hdr:
+                continue
+            seen = reachable(cfg, [e.dst], avoid={hdr}, edge_ok=lambda x: x.dst in body)
+            if be.src in seen:
+                return True
+    return False
 
 
 # ----------------------------------------------------------------------
